@@ -536,6 +536,38 @@ def canon_model(line):
     return " ".join(res)
 
 
+FIRST_CALLS = ["create", "yield", "self", "key_create", "cond_signal", "cond_broadcast", "barrier1", "jc_dec", "mutex",
+               "num_workers", "worker_num"]
+FIRST_NW = [("unset", None), ("positive", b"2"), ("non-numeric", b"abc"), ("zero", b"0"), ("positive", b"5"), ("negative", b"-2")]
+
+
+def first_oracle(sc, info, rc, out, err):
+    if rc == "timeout":
+        return "the process hangs"
+    if rc != 0:
+        return "the process dies (exit status %s) instead of initialising the library implicitly; stderr: %s" % (
+            rc, err[-200:].replace("\n", " | "))
+    e = sc["env"].get("MYTH_NUM_WORKERS")
+    x = py_atoi(bytes.fromhex(e)) if e is not None else 0
+    nw = x if x > 0 else info["ncpu"]
+    lines = out.strip().split("\n")
+    m = re.match(r"first (\w+) before=(-?\d+) r=(-?\d+) nw=(-?\d+) tasks=(-?\d+) me=(-?\d+) state=(-?\d+)$", lines[0] if lines else "")
+    if not m:
+        return "unparsable line %r" % (lines[0] if lines else "")
+    if int(m.group(2)) != 0:
+        return "the library was already initialised before the first call (harness problem)"
+    exp_r = {"create": 5, "self": 1}.get(sc["first"], 0)
+    if int(m.group(3)) != exp_r:
+        return "the first call %s returned %s" % (sc["first"], m.group(3))
+    if int(m.group(4)) != nw or int(m.group(5)) != nw:
+        return "after the first call (%s): %s workers, %s OS threads, configured %d" % (sc["first"], m.group(4), m.group(5), nw)
+    if not (0 <= int(m.group(6)) < nw) or int(m.group(7)) != 2:
+        return "after the first call: rank %s, state %s" % (m.group(6), m.group(7))
+    if len(lines) < 2 or not re.match(r"fini 0 state=0 tasks=1$", lines[1]):
+        return "finalisation after an implicit initialisation: %r" % (lines[1] if len(lines) > 1 else "")
+    return None
+
+
 def race_oracle(rc, out, err, K, C, nw):
     if rc == "timeout":
         return "the process hangs"
@@ -687,6 +719,9 @@ def describe(case):
 
 
 def describe_sc(sc):
+    if sc.get("first"):
+        return "first library call of the process is %s, under %s" % (
+            sc["first"], " ".join("%s=%r" % (k, bytes.fromhex(v)) for k, v in sorted(sc["env"].items())) or "an empty environment")
     if sc.get("race"):
         return "race: %d native threads call myth_init() concurrently, %d epochs, MYTH_NUM_WORKERS=%d" % (sc["K"], sc["C"], sc["nw"])
     return "history %s under %s" % (sc["spec"], " ".join("%s=%r" % (k, bytes.fromhex(v)) for k, v in sorted(sc["env"].items())) or "an empty environment")
@@ -748,15 +783,22 @@ def process_level(ctx, proc, drv, info):
         C = 100 if not ctx.thorough else 150
         rsc.append({"race": True, "K": K, "C": C, "nw": nw,
                     "env": {"MYTH_NUM_WORKERS": str(nw).encode().hex(), "MYTH_CPU_LIST": b"x".hex(), "MYTH_BIND_WORKERS": b"0".hex()}})
+    # implicit initialisation by whatever call comes first
+    fsc = []
+    for w in FIRST_CALLS:
+        for kind, v in (FIRST_NW if ctx.thorough else [r.choice(FIRST_NW)]):
+            fsc.append({"first": w, "env": ({"MYTH_NUM_WORKERS": v.hex()} if v is not None else {}), "kinds": {"first-use": w}})
     t0 = time.time()
 
     def one(sc):
+        if sc.get("first"):
+            return run_proc([proc, "first", sc["first"]], base_env(sc), 40)
         if sc.get("race"):
             return run_proc([proc, "race", str(sc["K"]), str(sc["C"])], base_env(sc), 90)
         return run_proc([proc, "hist", sc["spec"]], base_env(sc), 40)
     from concurrent.futures import ThreadPoolExecutor
     with ThreadPoolExecutor(max_workers=4) as ex:
-        runs = list(ex.map(one, scs + rsc))
+        runs = list(ex.map(one, scs + rsc + fsc))
     pfail, pdiff = [], []
     kinds, results = {}, {"ok": 0}
     migrated = cycles = 0
@@ -783,12 +825,19 @@ def process_level(ctx, proc, drv, info):
         if outs[i] != b:
             pdiff.append((sc, outs[i], b))
     races = []
-    for sc, (rc, out, err) in zip(rsc, runs[len(scs):]):
+    for sc, (rc, out, err) in zip(rsc, runs[len(scs):len(scs) + len(rsc)]):
         msg = race_oracle(rc, out, err, sc["K"], sc["C"], sc["nw"])
         races.append({"K": sc["K"], "C": sc["C"], "nw": sc["nw"], "ok": msg is None})
         if msg:
             pfail.append((sc, rc, out, err, msg))
-    stat = {"process_scenarios": len(scs), "process_corpus": ncorpus, "process_cycles": cycles, "process_cycles_main_migrated": migrated,
+    first_ok = 0
+    for sc, (rc, out, err) in zip(fsc, runs[len(scs) + len(rsc):]):
+        msg = first_oracle(sc, info, rc, out, err)
+        if msg:
+            pfail.append((sc, rc, out, err, msg))
+        else:
+            first_ok += 1
+    stat = {"first_use_runs": len(fsc), "first_use_ok": first_ok, "first_use_calls": FIRST_CALLS, "process_scenarios": len(scs), "process_corpus": ncorpus, "process_cycles": cycles, "process_cycles_main_migrated": migrated,
             "process_env_distribution": kinds, "process_results": results, "process_model_disagreements": len(pdiff),
             "race_runs": races, "process_wall_s": round(time.time() - t0, 1)}
     if scs:
@@ -815,6 +864,13 @@ def replay(ctx, path):
     info = get_info(unit)
     if body.get("level") == "process" or "scenario" in body:
         sc = body["scenario"]
+        if sc.get("first"):
+            rc, out, err = run_proc([proc, "first", sc["first"]], base_env(sc), 40)
+            print("scenario:", describe_sc(sc))
+            print("exit:", rc)
+            print("impl:", out.strip(), "| stderr:", err.strip()[-300:])
+            print("oracle:", first_oracle(sc, info, rc, out, err))
+            return 0
         if sc.get("race"):
             rc, out, err = run_proc([proc, "race", str(sc["K"]), str(sc["C"])], base_env(sc), 60)
             print("scenario:", describe_sc(sc))
